@@ -40,6 +40,8 @@ type ChainCfg struct {
 	CF        []FSpec `json:"container_filters"`
 	SF        []FSpec `json:"service_filters"`
 	RF        []FSpec `json:"route_filters"`
+	SF2       []FSpec `json:"service2_filters,omitempty"`
+	RF2       []FSpec `json:"route2_filters,omitempty"`
 	Preempt   int     `json:"preempt_permille"`
 }
 
@@ -304,7 +306,7 @@ func (e *chainEnv) routeFunc(req *restful.Request, resp *restful.Response) {
 
 func attrString(req *restful.Request, cfg *ChainCfg) string {
 	var parts []string
-	for _, fs := range [][]FSpec{cfg.CF, cfg.SF, cfg.RF} {
+	for _, fs := range [][]FSpec{cfg.CF, cfg.SF, cfg.RF, cfg.SF2, cfg.RF2} {
 		for _, f := range fs {
 			if f.Kind == "attr" {
 				if v := req.Attribute("a-" + f.tag); v != nil {
@@ -343,6 +345,8 @@ func (e *chainEnv) build(encOff bool) (c *restful.Container, outer *restful.Cont
 	tagFilters(cfg.CF, "c")
 	tagFilters(cfg.SF, "s")
 	tagFilters(cfg.RF, "r")
+	tagFilters(cfg.SF2, "t")
+	tagFilters(cfg.RF2, "q")
 	c = restful.NewContainer()
 	if cfg.Router == "jsr311" {
 		c.Router(restful.RouterJSR311{})
@@ -381,9 +385,10 @@ func (e *chainEnv) build(encOff bool) (c *restful.Container, outer *restful.Cont
 	for _, f := range cfg.SF {
 		ws.Filter(e.filter(f))
 	}
+	rfs := cfg.RF
 	mk := func(b *restful.RouteBuilder) *restful.RouteBuilder {
 		b.To(e.routeFunc)
-		for _, f := range cfg.RF {
+		for _, f := range rfs {
 			b.Filter(e.filter(f))
 		}
 		if !encOff {
@@ -401,6 +406,14 @@ func (e *chainEnv) build(encOff bool) (c *restful.Container, outer *restful.Cont
 	ws.Route(mk(ws.GET("/data/{id}")))
 	ws.Route(mk(ws.POST("/post").Consumes("application/json")))
 	c.Add(ws)
+	// a second service with its own filters: chains of different requests must not mix
+	ws2 := new(restful.WebService).Path("/svc2").Produces("application/json")
+	for _, f := range cfg.SF2 {
+		ws2.Filter(e.filter(f))
+	}
+	rfs = cfg.RF2
+	ws2.Route(mk(ws2.GET("/data/{id}")))
+	c.Add(ws2)
 	c.Handle("/plain/", e.plainHandler("plain"))
 	c.HandleWithFilter("/plainf/", e.plainHandler("plainf"))
 	if cfg.Entry == "Nested" || cfg.Entry == "NestedFilter" {
@@ -424,6 +437,8 @@ func (r *ChainReq) httpReq(t *sim.Task) *http.Request {
 	switch r.Target {
 	case "route":
 		return NewReq("GET", fmt.Sprintf("/svc/data/tok%d", r.ID), hdr, nil, 0, r.ID)
+	case "route2":
+		return NewReq("GET", fmt.Sprintf("/svc2/data/tok%d", r.ID), hdr, nil, 0, r.ID)
 	case "post":
 		hdr["Content-Type"] = "application/json"
 		return NewReq("POST", "/svc/post", hdr, &sim.SimBody{T: t, Data: []byte("{}")}, 2, r.ID)
@@ -455,6 +470,10 @@ func (cfg *ChainCfg) filtersFor(target string) []FSpec {
 		fs = append(fs, cfg.CF...)
 		fs = append(fs, cfg.SF...)
 		fs = append(fs, cfg.RF...)
+	case "route2":
+		fs = append(fs, cfg.CF...)
+		fs = append(fs, cfg.SF2...)
+		fs = append(fs, cfg.RF2...)
 	case "notfound", "badmethod", "notacceptable", "unsupported", "plainf":
 		fs = append(fs, cfg.CF...)
 	case "muxnotfound":
@@ -467,7 +486,7 @@ func (cfg *ChainCfg) filtersFor(target string) []FSpec {
 
 func targetEvent(cfg *ChainCfg, target string) string {
 	switch target {
-	case "route", "post":
+	case "route", "post", "route2":
 		return "handler"
 	case "plain", "plainf":
 		if cfg.Entry == "Dispatch" {
@@ -559,6 +578,8 @@ func (cfg *ChainCfg) model(r *ChainReq) (events []string, points []string) {
 
 type chainKnobs struct {
 	maxFilters   int
+	maxCF        int // container filters (0: maxFilters); append-growth capacities make 3, 5, 6, 7 interesting
+	twoServices  bool
 	richFilters  bool // use short/attr/newreq/newresp/mw-* kinds
 	encoding     bool
 	panics       int // permille of requests that panic
@@ -618,13 +639,23 @@ func genChainCfg(tp *sim.Tape, k chainKnobs) *ChainCfg {
 	cfg.Flusher = tp.Bool()
 	cfg.Trace = tp.Chance(300)
 	cfg.Pretty = true
-	cfg.CF = genFilters(tp, k, tp.G(k.maxFilters+1))
+	ncf := k.maxFilters
+	if k.maxCF > 0 {
+		ncf = k.maxCF
+	}
+	cfg.CF = genFilters(tp, k, tp.G(ncf+1))
 	cfg.SF = genFilters(tp, k, tp.G(k.maxFilters+1))
 	cfg.RF = genFilters(tp, k, tp.G(k.maxFilters+1))
+	if k.twoServices {
+		cfg.SF2 = genFilters(tp, k, tp.G(k.maxFilters+1))
+		cfg.RF2 = genFilters(tp, k, tp.G(k.maxFilters+1))
+	}
 	cfg.Preempt = []int{300, 100, 500, 30}[tp.G(4)]
 	tagFilters(cfg.CF, "c")
 	tagFilters(cfg.SF, "s")
 	tagFilters(cfg.RF, "r")
+	tagFilters(cfg.SF2, "t")
+	tagFilters(cfg.RF2, "q")
 	return cfg
 }
 
@@ -638,6 +669,9 @@ func genChainReq(tp *sim.Tape, cfg *ChainCfg, k chainKnobs, id int) *ChainReq {
 	}
 	if k.plain {
 		targets = append(targets, "plain", "plainf")
+	}
+	if k.twoServices {
+		targets = append(targets, "route2", "route2")
 	}
 	r.Target = targets[tp.G(len(targets))]
 	if k.encoding {
